@@ -18,12 +18,56 @@ def pick(line_key, seed, keep_frac):
     return int.from_bytes(h[:4], "big") / 2**32 < keep_frac
 
 
+def run_batch(g, tier, name, runs, out, acc):
+    """replay one batch of runs on the real code and judge it; only verdicts are kept"""
+    if not runs:
+        return
+    for i, r in enumerate(runs):
+        r["run"] = i
+    hruns = [dict(run=r["run"], cfg=r["cfg"], cmds=r["cmds"]) for r in runs]
+    tp, hw = vlib.run_harness("conn", hruns, f"{g['name']}_{tier}_{name}")
+    t0 = time.time()
+    verdict = vlib.judge(g["judge"], tp, f"{g['name']}_{tier}_{name}")
+    out["wall"]["harness"] = round(out["wall"].get("harness", 0) + hw, 2)
+    out["wall"]["judge"] = round(out["wall"].get("judge", 0) + time.time() - t0, 2)
+    acc["runs"] += verdict["runs"]
+    acc["events"] += verdict["events"]
+    byrun = {v["run"]: v for v in verdict["viol"]}
+    tail_cmds = g.get("tail_cmds", ("settle", "drain"))
+    for r in runs:
+        v = byrun.get(r["run"])
+        real = v["why"] if v else "none"
+        if "model_bad" in r:
+            real_m = real if (v and v.get("cmd") not in tail_cmds) else "none"
+            if (r["model_bad"] == "none") == (real_m == "none"):
+                acc["agree"] += 1
+            else:
+                acc["disagree"] += 1
+                if len(acc["dis_samples"]) < 12:
+                    acc["dis_samples"].append(dict(tokens=r["tokens"], role=r["cfg"].get("role"), ver=r["cfg"].get("ver"),
+                                                   model=r["model_bad"], real=real_m))
+        if v and len(acc["viols"]) < 5000:
+            acc["viols"].append(dict(why=real, cfg=r["cfg"], cmds=r["cmds"], src=r.get("src", "random"),
+                                     tokens=r.get("tokens")))
+    step = max(1, len(runs) // 2)
+    for r in runs[::step][:2]:
+        if len(acc["samples"]) < 8:
+            acc["samples"].append(dict(src=r.get("src", "random"), role=r["cfg"].get("role"), ver=r["cfg"].get("ver"),
+                                       cmds=r["cmds"][:14], verdict=byrun.get(r["run"], {}).get("why", "none")))
+    for f in (tp, tp.replace(".trace.", ".runs.")):
+        try:
+            if tier == "thorough":
+                os.remove(f)
+        except OSError:
+            pass
+
+
 def run_model_group(g, tier, seed):
-    """generic pipeline for a connection-level group:
-       TLC export (per configuration) -> replay sample/all on the real code -> TLC judge"""
+    """generic pipeline for a connection-level group, one batch per TLC configuration:
+       TLC export -> replay sample/all on the real code -> TLC judge"""
     out = dict(tlc=[], wall={})
-    runs = []
-    quota = g.get("quota", 350) if tier == "quick" else 10**9
+    acc = dict(runs=0, events=0, agree=0, disagree=0, dis_samples=[], viols=[], samples=[])
+    quota = g.get("quota", 350) if tier == "quick" else g.get("quota_thorough", 12000)
     for name, cfg_text, module, decode, variants in g["configs"](tier):
         r = vlib.tlc(module, cfg_text, f"{g['name']}_{name}", workers=8 if tier == "quick" else 14, timeout=3000)
         if r.get("error"):
@@ -31,6 +75,7 @@ def run_model_group(g, tier, seed):
         total = sum(1 for _ in vlib.prints(r["out"], "REPLAY"))
         frac = min(1.0, quota / max(total, 1))
         kept = nbad = 0
+        runs = []
         for bad, hist in vlib.prints(r["out"], "REPLAY"):
             is_bad = bad != "none"
             nbad += is_bad
@@ -39,47 +84,19 @@ def run_model_group(g, tier, seed):
             tokens = json.loads(hist)
             for var in variants:
                 cfg, cmds = decode(tokens, var)
-                runs.append(dict(run=len(runs), cfg=cfg, cmds=cmds, model_bad=bad, src=name, tokens=tokens))
+                runs.append(dict(cfg=cfg, cmds=cmds, model_bad=bad, src=name, tokens=tokens))
             kept += 1
         out["tlc"].append(dict(cfg=name, generated=r["generated"], distinct=r["distinct"], wall=r["wall"],
                                cached=r["cached"], transitions=total, replayed=kept, model_bad_lines=nbad))
+        run_batch(g, tier, name, runs, out, acc)
     rnd = random.Random(seed)
-    for extra in g.get("extra_runs", lambda tier, rnd: [])(tier, rnd):
-        extra["run"] = len(runs)
-        extra.setdefault("src", "generated")
-        runs.append(extra)
-    out["nruns"] = len(runs)
-    hruns = [dict(run=r["run"], cfg=r["cfg"], cmds=r["cmds"]) for r in runs]
-    tp, hw = vlib.run_harness("conn", hruns, f"{g['name']}_{tier}")
-    out["wall"]["harness"] = round(hw, 2)
-    t0 = time.time()
-    verdict = vlib.judge(g["judge"], tp, f"{g['name']}_{tier}")
-    out["wall"]["judge"] = round(time.time() - t0, 2)
-    out["judge"] = dict(runs=verdict["runs"], events=verdict["events"])
-    byrun = {v["run"]: v for v in verdict["viol"]}
-    agree = disagree = 0
-    dis_samples, viols = [], []
-    tail_cmds = g.get("tail_cmds", ("settle", "drain"))
-    for r in runs:
-        v = byrun.get(r["run"])
-        real = v["why"] if v else "none"
-        if "model_bad" in r:
-            real_m = real if (v and v.get("cmd") not in tail_cmds) else "none"
-            if (r["model_bad"] == "none") == (real_m == "none"):
-                agree += 1
-            else:
-                disagree += 1
-                if len(dis_samples) < 12:
-                    dis_samples.append(dict(tokens=r["tokens"], role=r["cfg"].get("role"), ver=r["cfg"].get("ver"),
-                                            model=r["model_bad"], real=real_m))
-        if v:
-            viols.append(dict(run=r["run"], why=real, cfg=r["cfg"], cmds=r["cmds"], src=r.get("src", "random"),
-                              tokens=r.get("tokens")))
-    out.update(verdict_agree=agree, verdict_drift=disagree, drift_samples=dis_samples, viols=viols)
-    step = max(1, len(runs) // 6)
-    out["samples"] = [dict(src=r.get("src", "random"), role=r["cfg"].get("role"), ver=r["cfg"].get("ver"),
-                           cmds=r["cmds"][:14], verdict=byrun.get(r["run"], {}).get("why", "none"))
-                      for r in runs[::step]][:6]
+    extra = g.get("extra_runs", lambda tier, rnd: [])(tier, rnd)
+    for e in extra:
+        e.setdefault("src", "generated")
+    run_batch(g, tier, "extra", extra, out, acc)
+    out["judge"] = dict(runs=acc["runs"], events=acc["events"])
+    out.update(verdict_agree=acc["agree"], verdict_drift=acc["disagree"], drift_samples=acc["dis_samples"],
+               viols=acc["viols"], samples=acc["samples"])
     return out
 
 
